@@ -52,6 +52,7 @@ def applyEv (t : Tab) : Ev → Tab
   | .code _ => t
   | .define s => enterSym t s
   | .use s => lookupSym t s
+  | .effect _ => t
 
 /-- everything an ordinary line does when it is assembled: `Produce_Code`'s label part (`LabelHandle`), then the statement -/
 def Leaf.evs (l : Leaf) : List Ev :=
